@@ -6,6 +6,7 @@ import (
 	"bytes"
 	"encoding/hex"
 	"fmt"
+	"os"
 	"strings"
 	"sync"
 	"time"
@@ -175,6 +176,9 @@ func runC03(c *Ctx) {
 		}
 		if len(arrivals) == 0 {
 			sig := fmt.Sprintf("C03/request-never-reached-backend/%s/%s/content=%s", compName, desc.OpCode, desc.Content)
+			if d := os.Getenv("VERIF_DUMP"); d != "" {
+				_ = os.WriteFile(d, sent.Body, 0o644)
+			}
 			state := "open"
 			if cc.cl.IsClosed() {
 				state = "closed by the proxy"
